@@ -97,8 +97,10 @@ def charge_to_cif(c):
     return c
 
 
-def emit_cif(rows, null="?", nulls=None, extra_cats=None, name="vmon", label_seq="index", drop_cols=()):
-    """nulls: optional {column: marker} overriding the default null marker."""
+def emit_cif(rows, null="?", nulls=None, extra_cats=None, name="vmon", label_seq="index", drop_cols=(), label_asym="auth"):
+    """nulls: optional {column: marker} overriding the default null marker.
+    label_asym="wide": label_asym_id is a two-character id (as in entries with more than 26 asym units)
+    and label_seq_id is offset beyond 9999, while the author identifiers are the table's own."""
     nulls = nulls or {}
 
     def nv(col, v):
@@ -119,9 +121,13 @@ def emit_cif(rows, null="?", nulls=None, extra_cats=None, name="vmon", label_seq
             lseq = str(seqidx[key])
         else:
             lseq = str(r["resseq"])
+        lasym = r["chain"] if (r["chain"] or "").strip() else None
+        if label_asym == "wide" and lasym is not None:
+            lasym = "A" + lasym
+            lseq = str(int(lseq) + 10000) if lseq.lstrip("-").isdigit() else lseq
         vals = {
             "group_PDB": r["rec"], "id": str(r["serial"]), "type_symbol": nv("type_symbol", r["element"]), "label_atom_id": r["name"],
-            "label_alt_id": nv("label_alt_id", r["alt"]), "label_comp_id": r["resname"], "label_asym_id": nv("label_asym_id", r["chain"] if (r["chain"] or "").strip() else None),
+            "label_alt_id": nv("label_alt_id", r["alt"]), "label_comp_id": r["resname"], "label_asym_id": nv("label_asym_id", lasym),
             "label_entity_id": "1", "label_seq_id": lseq, "pdbx_PDB_ins_code": nv("pdbx_PDB_ins_code", r["icode"]),
             "Cartn_x": f"{r['x']:.3f}", "Cartn_y": f"{r['y']:.3f}", "Cartn_z": f"{r['z']:.3f}",
             "occupancy": nv("occupancy", None if r["occ"] is None else f"{r['occ']:.2f}"),
